@@ -33,8 +33,7 @@ Record cfg := mkcfg {
   g_nbsimu : Z;
   g_mode : Z;                     (* variant inside a calculator class (see each instance) *)
   g_n : Z;                        (* nfact / nsel / nvarMorpho ... *)
-  g_has_in : bool;                (* dbin != nullptr *)
-  g_fixed : bool                  (* false: _rollback as in /repo;  true: as in /verif/fixes/C19_*.patch *)
+  g_has_in : bool                 (* dbin != nullptr *)
 }.
 
 Definition K {A} (x : A) : st -> A := fun _ => x.
@@ -60,8 +59,10 @@ Definition check_interp (c : cfg) (s : st) : bool :=
 Definition pre_interp (c : cfg) : list op :=
   (if (0 <? g_mndim c) && (0 <? g_nfex c) then [OExpand 1 L_F] else []) ++ [OExpand 1 L_NOSTAT].
 
-Definition rollback_std (c : cfg) (restore_x : bool) : list op :=
-  if g_fixed c then [OClean 1; OClean 2] ++ (if restore_x then [ORestoreX] else []) else [OClean 1].
+(* _rollback of every calculator: _cleanVariableDb(1) and, since fixes C19_1/3/4, _cleanVariableDb(2);
+   CalcKriging and CalcSimuTurningBands also give the coordinate locators back (DGM) *)
+Definition rollback_std (restore_x : bool) : list op :=
+  [OClean 1; OClean 2] ++ (if restore_x then [ORestoreX] else []).
 
 (* ---------------------------------------------------------------- CalcKriging (CalcKriging.cpp)
    slots: 0 _iptrEst, 1 _iptrStd, 2 _iptrVarZ, 3 _iptrNeigh *)
@@ -69,7 +70,7 @@ Definition kriging_nvar (c : cfg) : Z := if 0 <? g_matlc c then g_matlc c else g
 
 Definition kriging_check (c : cfg) (gout : bool) (s : st) : bool :=
   check_interp c s && g_has_in c && g_extra_ok c && (negb (g_dgm c) || gout) &&
-  (negb (g_fixed c) || g_neigh_only c || (0 <? locnum (getdb WIn s) L_Z)).   (* last test: fixes/C19_5.patch only *)
+  (g_neigh_only c || (0 <? locnum (getdb WIn s) L_Z)).        (* CalcKriging.cpp:84 (fix C19_5) *)
 
 Definition kriging_pre (c : cfg) (gout : bool) : list op :=
   let status := if 0 <=? g_single c then 2 else 1 in
@@ -86,7 +87,7 @@ Definition rn (names : st -> list str) (tin : Z) (n : st -> Z) (slot : nat) (off
 Definition kriging_post (c : cfg) : list op :=
   let nv := K (kriging_nvar c) in
   OClean 2 ::
-  (if g_fixed c && (0 <=? g_single c) then (if g_dgm c then [ORestoreX] else [])   (* fixes/C19_1.patch: nothing to name *)
+  (if 0 <=? g_single c then (if g_dgm c then [ORestoreX] else [])     (* single target: nothing to name (CalcKriging.cpp:173) *)
    else if g_xvalid c then
      (if 0 <? g_xv_std c then [rn no_names L_Z nv 1%nat 0 s_stderr false]
       else if g_xv_std c <? 0 then [rn no_names L_Z nv 1%nat 0 s_stdev false] else []) ++
@@ -109,7 +110,7 @@ Definition kriging_post (c : cfg) : list op :=
 
 Definition kriging (c : cfg) (gout : bool) : calc :=
   mkcalc (g_nc c) (kriging_check c gout) (kriging_pre c gout) [OBody 3] (kriging_post c)
-         (rollback_std c (g_dgm c)).
+         (rollback_std (g_dgm c)).
 
 (* ---------------------------------------------------------------- CalcMigrate (CalcMigrate.cpp:622-670)
    slot 0 _iattOut *)
@@ -122,7 +123,7 @@ Definition migrate (c : cfg) : calc :=
     [OBody 3]
     (OClean 2 :: ORename WOut (fun s => names_by_uids (getdb WIn s) (g_iuids c)) (-1) nv 0%nat 0 [] (K 1) true ::
      (if g_locate c then [OSetLocs WOut 0%nat nv (g_loctype c)] else []))
-    (rollback_std c false).
+    (rollback_std false).
 
 (* ---------------------------------------------------------------- CalcStatistics (CalcStatistics.cpp:43-108)
    g_mode 0: dbStatisticsOnGrid (_flagStats), 1: dbRegression (_flagRegr) *)
@@ -136,30 +137,22 @@ Definition stats (c : cfg) (gout : bool) : calc :=
     [OBody 3]
     (OClean 2 :: (if g_mode c =? 0 then [ORename WOut no_names L_Z nvar_in 0%nat 0 [] (K 1) true]
                   else [ORename WIn no_names L_Z (K 1) 0%nat 0 [] (K 1) true]))
-    (rollback_std c false).
+    (rollback_std false).
 
 (* ---------------------------------------------------------------- CalcAnamTransform (CalcAnamTransform.cpp:152-313)
-   ACalcDbVarCreator: one Db (= In here).  g_mode 0: _flagVars, 1: _flagToFactors (g_n = nfact),
-   2: selectivity outputs (_flagDisjKrig/_flagCondExp/_flagUniCond, g_n = nsel; names are the caller's).
-   _preprocess calls Db::addColumnsByConstant directly: the new variables are never registered. *)
+   ACalcDbVarCreator: one Db (= WIn here).  g_mode 0: _flagVars (rawToGaussian...), 1: _flagToFactors (g_n = nfact).
+   (the selectivity outputs _flagDisjKrig/_flagCondExp/_flagUniCond are not modelled)
+   Since fix C19_2 _preprocess registers its variables through _addVariableDb. *)
 Definition anam_check (c : cfg) (s : st) : bool :=
   (0 <? locnum (getdb WIn s) L_Z) && (if g_mode c =? 1 then locnum (getdb WIn s) L_Z =? 1 else true) && g_extra_ok c.
-Definition anam_add (c : cfg) (n : st -> Z) (init : content) (slot : nat) (neg_ok : bool) : op :=
-  if g_fixed c then OAdd WIn 1 (-1) n init slot else OAddUnreg WIn n init slot neg_ok.
-Definition anam (c : cfg) (selnames : list str) : calc :=
+Definition anam (c : cfg) : calc :=
   mkcalc (g_nc c) (anam_check c)
-    (if g_mode c =? 0 then [anam_add c nvar_in (Cst 0) 0%nat false]
-     else if g_mode c =? 1 then [anam_add c (K (g_n c)) (Cst 0) 1%nat false]
-     else [anam_add c (K (g_n c)) (Cst 1) 2%nat true])
-    (if g_mode c =? 0 then [OWrite WIn 0%nat nvar_in 3]
-     else if g_mode c =? 1 then [OWrite WIn 1%nat (K (g_n c)) 3]
-     else [OWrite WIn 2%nat (K (g_n c)) 3])
+    (if g_mode c =? 0 then [OAdd WIn 1 (-1) nvar_in (Cst 0) 0%nat] else [OAdd WIn 1 (-1) (K (g_n c)) (Cst 0) 1%nat])
+    [OBody 3]
     (OClean 2 ::
      (if g_mode c =? 0 then [ORename WIn no_names L_Z nvar_in 0%nat 0 [] (K 1) true]
-      else if g_mode c =? 1 then [ORename WIn no_names L_Z (K 1) 1%nat 0 [] (K (g_n c)) true]
-      else map (fun p => ORename WIn no_names (if g_mode c =? 2 then -1 else L_Z) (K 1) 2%nat (Z.of_nat (fst p)) (snd p) (K 1) true)
-               (combine (seq 0 (length selnames)) selnames)))
-    (rollback_std c false).
+      else [ORename WIn no_names L_Z (K 1) 1%nat 0 [] (K (g_n c)) true]))
+    (rollback_std false).
 
 (* ---------------------------------------------------------------- CalcSimuTurningBands (CalcSimuTurningBands.cpp:2164-2276)
    slot 0 _iattOut *)
@@ -176,17 +169,17 @@ Definition simtub (c : cfg) (gout : bool) : calc :=
     ([OClean 2; OExpand (-1) L_F; OExpand (-1) L_NOSTAT;
       ORename WOut no_names L_Z (K (g_mnvar c)) 0%nat 0 [] (K (g_nbsimu c)) true] ++
      (if g_dgm c then [ORestoreX] else []))
-    (rollback_std c (g_dgm c)).
+    (rollback_std (g_dgm c)).
 
 (* ---------------------------------------------------------------- CalcSimuFFT (CalcSimuFFT.cpp:1048-1104) *)
 Definition simfft_check (c : cfg) (gout : bool) (s : st) : bool :=
   check_interp c s && (0 <? g_nbsimu c) && gout && (g_mnvar c =? 1) && g_extra_ok c.
 Definition simfft (c : cfg) (gout : bool) : calc :=
   mkcalc (g_nc c) (simfft_check c gout)
-    (pre_interp c ++ [OAdd WOut 1 L_SIMU (K 1) (Cst 0) 0%nat])
+    (pre_interp c ++ [OAdd WOut 1 L_SIMU (K (g_nbsimu c)) (Cst 0) 0%nat])
     [OBody 3]
     [OClean 2; ORename WOut no_names L_Z (K 1) 0%nat 0 [] (K (g_nbsimu c)) true]
-    (rollback_std c false).
+    (rollback_std false).
 
 (* ---------------------------------------------------------------- CalcSimpleInterpolation (CalcSimpleInterpolation.cpp:44-105)
    slots 0 _iattEst, 1 _iattStd *)
@@ -200,7 +193,7 @@ Definition simpleint (c : cfg) : calc :=
     [OBody 3]
     [OClean 2; ORename WOut no_names L_Z (K 1) 0%nat 0 s_estim (K 1) true;
      ORename WOut no_names L_Z (K 1) 1%nat 0 s_stdev (K 1) true]
-    (rollback_std c false).
+    (rollback_std false).
 
 (* ---------------------------------------------------------------- CalcGridToGrid (CalcGridToGrid.cpp:60-160)
    g_mode 0: copy/expand/inter, 1: shrink (auxiliary temporary variable); slots 0 _iattOut, 1 _iattAux *)
@@ -210,7 +203,7 @@ Definition g2g (c : cfg) : calc :=
     (OAdd WOut 1 (-1) (K 1) (Cst 0) 0%nat :: (if g_mode c =? 1 then [OAdd WOut 2 (-1) (K 1) (Cst 0) 1%nat] else []))
     [OBody 3]
     [OClean 2; ORename WOut no_names L_Z (K 1) 0%nat 0 [] (K 1) true]
-    (rollback_std c false).
+    (rollback_std false).
 
 (* ---------------------------------------------------------------- CalcImage (CalcImage.cpp:44-130)
    g_mode 0: filter (nvar), 1: morpho (g_n variables, qualifier = operation key), 2: smooth *)
@@ -228,21 +221,21 @@ Definition image (c : cfg) (opkey : str) : calc :=
      if g_mode c =? 0 then ORename WOut no_names L_Z nvar_in 0%nat 0 [] (K 1) true
      else if g_mode c =? 1 then ORename WOut no_names L_Z (K 1) 0%nat 0 opkey (K (g_n c)) true
      else ORename WOut no_names L_Z (K 1) 0%nat 0 [] (K 1) true]
-    (rollback_std c false).
+    (rollback_std false).
 
 (* ---------------------------------------------------------------- CalcGlobal (CalcGlobal.cpp:37-78): creates nothing *)
 Definition global_check (c : cfg) (gout : bool) (s : st) : bool :=
   check_interp c s && (if g_mode c =? 0 then gout else true) &&
   (0 <=? g_n c) && (g_n c <? locnum (getdb WIn s) L_Z) && g_extra_ok c.
 Definition global (c : cfg) (gout : bool) : calc :=
-  mkcalc (g_nc c) (global_check c gout) (pre_interp c) [OBody 3] [OClean 2] (rollback_std c false).
+  mkcalc (g_nc c) (global_check c gout) (pre_interp c) [OBody 3] [OClean 2] (rollback_std false).
 
 (* dispatch used by Run.v: calculator number -> instance *)
 Definition instance (id : Z) (c : cfg) (gout : bool) (aux : list str) : calc :=
   if id =? 0 then kriging c gout
   else if id =? 1 then migrate c
   else if id =? 2 then stats c gout
-  else if id =? 3 then anam c aux
+  else if id =? 3 then anam c
   else if id =? 4 then simtub c gout
   else if id =? 5 then simfft c gout
   else if id =? 6 then simpleint c
